@@ -401,13 +401,18 @@ struct Sig {
     multi_uspace: bool, // F18: a """ string line ending in a Unicode space other than ' ', tab, CR
     hole_string: bool,  // F16: a string literal / string pattern nested inside an interpolation hole
     tail_block: bool,   // F19: a non-final chain term that is a block ending in a tail call
-    multi_pattern: bool,      // F23: a """ string *pattern*
-    lower_tuple_type: bool,   // F24: a tuple type named by a lower-case type name: `'e[...]`
-    paren_partial_type: bool, // F25: a type pattern that is a partial tuple type, e.g. `((j: 't))`
-    spawn_rich_function: bool, // F26: spawn of a function with type parameters / return type / no body
-    wrap_binding: bool, // F27: a branch of a multi-branch block whose body is one chain that binds/matches
-    spawn_container: bool, // F29: `@` applied to a tuple / string / spawn / select term (format.rs:432 unreachable!)
+    multi_pattern: bool,      // F33: a """ string *pattern*
+    lower_tuple_type: bool,   // F34: a tuple type named by a lower-case type name: `'e[...]`
+    paren_partial_type: bool, // F35: a type pattern that is a partial tuple type, e.g. `((j: 't))`
+    spawn_rich_function: bool, // F36: spawn of a function with type parameters / return type / no body
+    wrap_binding: bool, // F37: a branch of a multi-branch block whose body is one chain that binds/matches
+    spawn_container: bool, // F39: `@` applied to a tuple / string / spawn / select term (format.rs:432 unreachable!)
     multi_branch: bool, // a block / function body with two or more branches
+    primitive_named_identifier: bool, // F40: Type::Identifier named int/bin/ref (only `<'int>` produces it)
+    toplevel_type_binding: bool, // F41: a statement-level chain bound to a type pattern: `'d<'t> = ...`
+    self_default_pattern: bool, // F42: Type::SelfDefault inside a pattern
+    name_then_paren: bool, // F43: a step ending in a bare tuple name followed by a step starting with `(`
+    in_pattern: bool,
 }
 fn unprotected_space(c: char) -> bool {
     c.is_whitespace() && c != ' ' && c != '\t' && c != '\r' && c != '\n'
@@ -466,9 +471,19 @@ fn sig_type(t: &Type, sig: &mut Sig) {
         }
         Type::Union(u) => u.types.iter().for_each(|t| sig_type(t, sig)),
         Type::Intersection(ts) => ts.iter().for_each(|t| sig_type(t, sig)),
-        Type::Identifier { arguments, .. } | Type::ModuleType { arguments, .. } | Type::SelfDefault { arguments } => {
+        Type::Identifier { name, arguments } => {
+            if matches!(name.as_str(), "int" | "bin" | "ref") {
+                sig.primitive_named_identifier = true;
+            }
             arguments.iter().for_each(|t| sig_type(t, sig))
         }
+        Type::SelfDefault { arguments } => {
+            if sig.in_pattern {
+                sig.self_default_pattern = true;
+            }
+            arguments.iter().for_each(|t| sig_type(t, sig))
+        }
+        Type::ModuleType { arguments, .. } => arguments.iter().for_each(|t| sig_type(t, sig)),
         Type::Process(p) => {
             if let Some(t) = &p.receive_type {
                 sig_type(t, sig)
@@ -498,9 +513,15 @@ fn sig_match(m: &Match, in_hole: bool, sig: &mut Sig) {
             if matches!(t, Type::Tuple(tt) if tt.is_partial) {
                 sig.paren_partial_type = true;
             }
+            sig.in_pattern = true;
             sig_type(t, sig);
+            sig.in_pattern = false;
         }
-        Match::As(t, _, _) => sig_type(t, sig),
+        Match::As(t, _, _) => {
+            sig.in_pattern = true;
+            sig_type(t, sig);
+            sig.in_pattern = false;
+        }
         Match::Tuple(t) => t.fields.iter().for_each(|f| sig_match(&f.pattern, in_hole, sig)),
         Match::Partial(p) => p.fields.iter().for_each(|f| {
             if let Some(m) = &f.pattern {
@@ -523,7 +544,26 @@ fn sig_chain(c: &Chain, in_hole: bool, sig: &mut Sig) {
         sig_term(t, in_hole, sig);
     }
 }
+fn sig_steps(chains: &[Chain], sig: &mut Sig) {
+    for w in chains.windows(2) {
+        let ends_bare = matches!(w[0].terms.last(), Some(Term::Tuple(t)) if matches!(t.name, TupleName::Named(_)) && t.fields.is_empty());
+        let starts_paren = match &w[1].match_pattern {
+            Some(Match::Partial(p)) => p.name.is_none(),
+            Some(Match::Type(_) | Match::Or(_) | Match::As(..)) => true,
+            _ => false,
+        };
+        if ends_bare && starts_paren {
+            sig.name_then_paren = true;
+        }
+    }
+}
 fn sig_expression(e: &Expression, in_hole: bool, sig: &mut Sig) {
+    for b in &e.branches {
+        sig_steps(&b.condition.chains, sig);
+        if let Some(k) = &b.consequence {
+            sig_steps(&k.chains, sig);
+        }
+    }
     if e.branches.len() > 1 {
         sig.multi_branch = true;
         for b in &e.branches {
@@ -611,7 +651,15 @@ fn signature(p: &Program) -> Sig {
     let mut sig = Sig::default();
     for s in &p.statements {
         match s {
-            Statement::Expression(seq) => seq.chains.iter().for_each(|c| sig_chain(c, false, &mut sig)),
+            Statement::Expression(seq) => {
+                sig_steps(&seq.chains, &mut sig);
+                for c in &seq.chains {
+                    if matches!(c.match_pattern, Some(Match::Type(_))) {
+                        sig.toplevel_type_binding = true;
+                    }
+                    sig_chain(c, false, &mut sig)
+                }
+            }
             Statement::TypeAlias { type_definition, .. } => sig_type(type_definition, &mut sig),
         }
     }
@@ -748,11 +796,26 @@ fn e2e(src: &str, with_out: bool) -> String {
     if sig.wrap_binding {
         sigs.push("wrap-binding");
     }
+    if sig.primitive_named_identifier {
+        sigs.push("primitive-named-identifier");
+    }
+    if sig.toplevel_type_binding {
+        sigs.push("toplevel-type-binding");
+    }
+    if sig.self_default_pattern {
+        sigs.push("self-default-type-pattern");
+    }
+    if sig.name_then_paren {
+        sigs.push("name-then-paren");
+    }
+    if !c_in.is_empty() {
+        sigs.push("has-comment");
+    }
     if sig.multi_branch && !c_in.is_empty() {
         sigs.push("comment-and-branches");
     }
     {
-        // a blank (whitespace-only) line anywhere, incl. the first line (F20)
+        // a blank (whitespace-only) line anywhere, incl. the first line (F30)
         let norm = src.replace("\r\n", "\n");
         if norm.split('\n').rev().skip(1).any(|l| l.trim().is_empty()) {
             sigs.push("blank-line");
@@ -762,7 +825,7 @@ fn e2e(src: &str, with_out: bool) -> String {
         sigs.push("two-comments");
     }
     {
-        // a comment directly after `=>` on its line, or a comment line followed by `=>` (F28)
+        // a comment directly after `=>` on its line, or a comment line followed by `=>` (F38)
         let norm = src.replace("\r\n", "\n");
         let mut prev_comment = false;
         let mut hit = false;
